@@ -16,7 +16,7 @@ from .ctx import CTX, PathEnd, OutOfSubset
 from .sym import (SInt, SBool, SStr, SRef, SBV, SReal, PyRaise, mk_int, mk_bool, mk_str, _zint, _zbool, zstr,
                   is_sym, ite)
 from .values import (Opaque, AbstractSeq, OneShotIter, EnumMember, FuncVal, BoundMethod, PropertyVal, HostFn, HostModule, ClassVal, VObj,
-                     RangeVal, IterVal, VDict, VSet, VList, UNROLL_LIMIT)
+                     RangeVal, IterVal, VDict, VSet, VList, GhostVal, UNROLL_LIMIT)
 
 
 def repo_root():
@@ -448,6 +448,8 @@ class Interp:
         if isinstance(v, VList):
             n = v.len()
             return (n != 0) if isinstance(n, int) else bool(n != 0)
+        if isinstance(v, GhostVal):
+            return self.truthy(v.pv_truthy())
         if isinstance(v, VDict):
             return bool(v.d) or bool(v.sym)
         if isinstance(v, VSet):
@@ -506,6 +508,10 @@ class Interp:
         raise PyRaise(TypeError("unsupported operand type(s) for %s" % type(op).__name__))
 
     def binop(self, op, a, b):
+        if isinstance(a, GhostVal):
+            return a.pv_binop(type(op).__name__, b, False)
+        if isinstance(b, GhostVal):
+            return b.pv_binop(type(op).__name__, a, True)
         if isinstance(a, VObj) or isinstance(b, VObj):
             return self._obj_binop(op, a, b)
         if isinstance(a, VList) or isinstance(b, VList):
@@ -679,6 +685,8 @@ class Interp:
         return a is b
 
     def contains(self, container, x):
+        if isinstance(container, GhostVal):
+            return container.pv_contains(x)
         if isinstance(container, (tuple, VList, VSet, IterVal)):
             if isinstance(container, tuple):
                 items = list(container)
@@ -729,6 +737,8 @@ class Interp:
 
     # ------------------------------------------------------------------ subscripts
     def getitem(self, v, k):
+        if isinstance(v, GhostVal):
+            return v.pv_getitem(k)
         if isinstance(v, VList):
             return v.get(k)
         if isinstance(v, tuple):
@@ -783,6 +793,9 @@ class Interp:
         return hostmodels.host_getitem(self, v, k)
 
     def setitem(self, v, k, val):
+        if isinstance(v, GhostVal):
+            v.pv_setitem(k, val)
+            return
         if isinstance(v, VList):
             v.set(k, val)
             return
@@ -815,6 +828,9 @@ class Interp:
         """materialise an iterable of statically known length -> python list of values, or None"""
         if isinstance(v, OneShotIter):
             return self.iterate(v.take())
+        if isinstance(v, GhostVal):
+            r = v.pv_iter()
+            return r if isinstance(r, list) else None
         if isinstance(v, tuple):
             return list(v)
         if isinstance(v, VList):
@@ -1020,6 +1036,8 @@ class Interp:
         if isinstance(cur, VList) and isinstance(s.op, ast.Add):
             # list += iterable  (in place)
             self.watch_append(scope, t, rhs)
+            if isinstance(rhs, OneShotIter) and isinstance(rhs.src, VList) and not rhs.src.is_concrete():
+                rhs = rhs.take()
             if isinstance(rhs, VList):
                 cur.extend(rhs)
             else:
@@ -1211,6 +1229,8 @@ class Interp:
             raise OutOfSubset("for/else with symbolic bounds")
         if isinstance(it, OneShotIter):
             it = it.take()
+        if isinstance(it, GhostVal):
+            it = it.pv_iter()
         if isinstance(it, RangeVal) and it.step == 1:
             self._sym_range_loop(s, scope, it, spec, key)
         elif isinstance(it, VList):
@@ -1368,9 +1388,14 @@ class Interp:
             if elem is None:
                 elem = it.factory() if isinstance(it, AbstractSeq) else Opaque("elem")
             self.assign_target(s.target, elem, scope)
+            token = spec.at_head(NS(scope, old, {})) if spec is not None and spec.at_head is not None else None
             r = self._run_body(s.body, scope)
             if r == "break":
+                if spec is not None and getattr(spec, "at_break", None) is not None:
+                    spec.at_break(NS(scope, old, {}), token)
                 return
+            if spec is not None and spec.at_end is not None:
+                spec.at_end(NS(scope, old, {}), token)
             self._check_inv(spec, scope, old, {}, "preserve", key)
             raise PathEnd("loop preservation path")
 
